@@ -163,6 +163,20 @@ func runCLI(c *ctx) {
 			c.cliCaseSQL(fc.a, fc.b, fc.desc)
 		}
 	}
+	// constraint / index names outside \w+ on every named object: HCL and SQL-file desired states
+	og := &G{r: c.r, odd: true}
+	no := 18
+	if c.thorough {
+		no = 400
+	}
+	for i := 0; i < no; i++ {
+		a, b, d := og.pair()
+		if i%3 == 2 {
+			c.cliCaseSQL(a, b, "odd-names:"+d)
+		} else {
+			c.cliCase(a, b, "odd-names:"+d, i%2 == 0)
+		}
+	}
 	// populated databases whose rows decide whether the apply can be committed (cliorphan.go)
 	rounds := 3 // one per key style of the child table
 	if c.thorough {
